@@ -47,6 +47,7 @@ func routerPkg(path string) string {
 
 func runC17(c *core.Ctx) {
 	checkUpdateFeeRound(c)
+	checkVoteTagsDistinct(c, "C17.ledger-tag")
 	// (1) confinement
 	stStorage, err := c.P.Const("core/store/common", "ST_STORAGE")
 	if err != nil {
